@@ -821,3 +821,40 @@ pub fn on_packet_acked_native(eliciting: bool) -> u32 {
     assert!(paths::in_flight_bytes(&conn.path) == 0, "bytes in flight do not return to zero");
     1
 }
+
+/// Native replay body for the E2 query `e2_handle_timeout_iteration` (C08): the peer has gone silent.
+/// Keep-alives keep firing every 100 ms, but they are our own packets: the idle timer (1 s) armed when we
+/// last heard from the peer must not move, and the connection must time out on schedule.
+pub fn keep_alive_idle_native(_x: u8) -> u32 {
+    let mut conn = mk_established(false);
+    conn.path.mtud = mtud::mk_disabled();
+    let mut cfg = TransportConfig::default();
+    cfg.keep_alive_interval(Some(Duration::from_millis(100)));
+    conn.config = Arc::new(cfg);
+    conn.idle_timeout = Some(Duration::from_millis(1000));
+    // the last packet from the peer was acknowledged long ago; since then only we have been sending
+    conn.permit_idle_reset = false;
+    let t0 = crate::verif::mk_instant(50, 0).unwrap();
+    let deadline = t0 + Duration::from_secs(3); // generous: max(idle timeout, 3 PTO) is what the timer was armed with
+    conn.timers.set(Timer::Idle, deadline);
+    conn.timers.set(Timer::KeepAlive, t0 + Duration::from_millis(100));
+    let mut buf = Vec::with_capacity(4096);
+    let mut t = t0;
+    for _ in 0..60 {
+        t = t + Duration::from_millis(100);
+        conn.handle_timeout(t);
+        while conn.poll_transmit(t, 1, &mut buf).is_some() {
+            buf.clear();
+        }
+        if conn.state.is_closed() {
+            break;
+        }
+        assert!(conn.timers.get(Timer::Idle).map_or(true, |x| x <= deadline), "the idle deadline moved although nothing was received from the peer");
+        if conn.timers.get(Timer::KeepAlive).is_none() {
+            conn.timers.set(Timer::KeepAlive, t + Duration::from_millis(100));
+        }
+    }
+    assert!(conn.state.is_closed(), "a silent peer was never timed out");
+    assert!(t <= deadline + Duration::from_millis(100));
+    1
+}
